@@ -288,7 +288,22 @@ fn gen_common(rng: &mut Rng, t: &mut Trace) {
 pub const F_AAD: u8 = 0;
 pub const F_DATA: u8 = 1; // off&1: in place
 pub const F_FORK: u8 = 2;
-const F_KINDS: &[&str] = &["add_data", "encrypt", "fork"];
+// last data piece of a handle, computed by the model so that the tag of the whole message takes a special value
+// (arg = class, see model::aead::forced_goal): plaintext = keystream XOR (padding || free block || solved block)
+pub const F_FORCE_TAG: u8 = 3;
+const F_KINDS: &[&str] = &["add_data", "encrypt", "fork", "encrypt_piece_forcing_a_special_tag"];
+
+/// plaintext piece that makes the honest tag special; None if the model found no solution
+pub fn forcing_piece(key: &[u8], nonce: &[u8; 12], aad: &[u8], ct_so_far: &[u8], sel: u64, seed: u64, rounds: usize) -> Option<Vec<u8>> {
+    use crate::model::chacha::{keystream, Family};
+    let mut fill = [0u8; 16];
+    fill.copy_from_slice(&data(seed | 16, 16));
+    let goal = maead::forced_goal(sel, &fill);
+    let sfx = maead::force_tag_suffix(key, nonce, aad, ct_so_far, &goal, seed, rounds)?;
+    let pos = ct_so_far.len();
+    let ks = keystream(Family::ChaChaIetf, key, nonce, 1 + (pos / 64) as u64, pos % 64, sfx.len(), rounds);
+    Some(sfx.iter().zip(ks.iter()).map(|(a, b)| a ^ b).collect())
+}
 
 pub struct AeadFlow;
 
@@ -348,6 +363,10 @@ impl Scenario for AeadFlow {
         if huge && rng.chance(1, 3) {
             t.ops.insert(0, Op::new(0, F_AAD).len(aead_len_huge(rng)).seed(rng.data_seed()).off(rng.below(32) as u8));
         }
+        if rng.chance(1, 6) {
+            // the last piece of one handle is chosen so that the honest tag is all-zero, all-ones, ... (class = arg)
+            t.ops.push(Op::new(rng.below(handles as u64) as u8, F_FORCE_TAG).arg(rng.below(8)).seed(rng.data_seed()).off(rng.below(2) as u8));
+        }
         // sometimes AAD arrives after a fork that is still in the AAD phase
         if fork_ok && rng.chance(1, 6) {
             t.ops.insert(0, Op::new(0, F_FORK));
@@ -390,6 +409,24 @@ impl Scenario for AeadFlow {
                         obs.hit("fault.dirty_destination");
                     }
                     let c = guarded(|| hd.obj.encrypt(&d, inplace)).map_err(|m| Violation::new("unexpected-panic", i, "encrypt", m, "aead"))?;
+                    obs.out(&c);
+                    hd.pt.extend_from_slice(&d);
+                    hd.ct.extend_from_slice(&c);
+                }
+                F_FORCE_TAG => {
+                    let hd = &mut hs[h];
+                    let d = match forcing_piece(&key, &nonce, &hd.aad, &hd.ct, op.arg, op.seed, rounds) {
+                        Some(d) => d,
+                        None => {
+                            obs.hit("skipped.no_forcing_block_below_2^128");
+                            continue;
+                        }
+                    };
+                    obs.hit("fault.message_chosen_for_a_special_tag");
+                    if hd.obj.in_aad_phase() {
+                        guarded(|| hd.obj.to_encryption()).map_err(|m| Violation::new("unexpected-panic", i, "to_encryption", m, "aead"))?;
+                    }
+                    let c = guarded(|| hd.obj.encrypt(&d, op.off & 1 == 1)).map_err(|m| Violation::new("unexpected-panic", i, "encrypt", m, "aead"))?;
                     obs.out(&c);
                     hd.pt.extend_from_slice(&d);
                     hd.ct.extend_from_slice(&c);
@@ -438,6 +475,12 @@ impl Scenario for AeadFlow {
             }
             if pt.is_empty() {
                 obs.hit("probe.empty_plaintext");
+            }
+            if m.tag == [0u8; 16] {
+                obs.hit("probe.honest_tag_all_zero");
+            }
+            if m.tag == [0xffu8; 16] {
+                obs.hit("probe.honest_tag_all_ones");
             }
             if ct != m.ct {
                 return Err(Violation::bytes("stream-mismatch", n, &m.ct, &ct, format!("aead R={} key{}: ciphertext of handle {} ({} bytes, aad {} bytes) differs from the RFC 8439 model", rounds, key.len() * 8, hi, pt.len(), aad.len())));
@@ -722,7 +765,10 @@ impl Scenario for AeadTamper {
         t.set_p("aad_seed", match rng.below(6) { 0 => 0, _ => rng.data_seed() });
         t.set_p("pt_seed", match rng.below(6) { 0 => 0, _ => rng.data_seed() });
         let kl = if t.p("key_len") == 16 { 16 } else { 32 };
-        t.ops = self.catalogue(rng, aad_len, pt_len, kl);
+        // one run in five: the honest message is chosen (its last 17..48 bytes) so that its tag is a special value
+        let force = if rng.chance(1, 5) { 1 + rng.below(8) } else { 0 };
+        t.set_p("force_tag", force);
+        t.ops = self.catalogue(rng, aad_len, pt_len + if force > 0 { 32 } else { 0 }, kl);
         t
     }
 
@@ -730,7 +776,19 @@ impl Scenario for AeadTamper {
         let rounds = rounds_of(t);
         let (key, nonce) = key_nonce(t);
         let aad = data(t.p("aad_seed"), (t.p("aad_len") as usize).min(131072));
-        let pt = data(t.p("pt_seed"), (t.p("pt_len") as usize).min(131072));
+        let mut pt = data(t.p("pt_seed"), (t.p("pt_len") as usize).min(131072));
+        if t.p("force_tag") > 0 {
+            // the Byzantine-free but unlucky case: an honest message whose tag is all-zero, all-ones, ...
+            let ks = crate::model::chacha::keystream(crate::model::chacha::Family::ChaChaIetf, &key, &nonce, 1, 0, pt.len(), rounds);
+            let ct0: Vec<u8> = pt.iter().zip(ks.iter()).map(|(a, b)| a ^ b).collect();
+            match forcing_piece(&key, &nonce, &aad, &ct0, t.p("force_tag") - 1, t.p("pt_seed") ^ 0xf0, rounds) {
+                Some(d) => {
+                    pt.extend_from_slice(&d);
+                    obs.hit("fault.message_chosen_for_a_special_tag");
+                }
+                None => obs.hit("skipped.no_forcing_block_below_2^128"),
+            }
+        }
         // honest sender (real code)
         let (ct, tag) = guarded(|| oneshot_encrypt(rounds, &key, &nonce, &aad, &pt)).map_err(|m| Violation::new("unexpected-panic", 0, "one-shot encrypt", m, "aead"))?;
         let honest = Tuple { key: key.clone(), nonce, aad: aad.clone(), ct, tag };
